@@ -2,6 +2,10 @@ mod explore;
 mod item;
 mod model;
 mod report;
+#[cfg(feature = "b1")]
+mod rt;
+#[cfg(feature = "b1")]
+mod sem_struct;
 mod xp;
 #[cfg(feature = "b1")]
 mod ir;
